@@ -233,8 +233,8 @@ func (x *X) auctionToRecord(s *State, iv Iface, like St) St {
 		if ov, has := outer.F[k]; has {
 			rec.F[k] = x.flat(s, ov)
 		} else {
-			// a field of the other concrete type: irrelevant for this kind
-			rec.F[k] = x.havocLike(s, "dontcare."+k, nil, selV(v, "0"))
+			// a field of the other concrete type: irrelevant for this kind; the record keeps what it had there
+			rec.F[k] = v
 		}
 	}
 	return rec
